@@ -5,12 +5,14 @@ ROOT = os.path.dirname(os.path.dirname(os.path.abspath(__file__)))
 sys.path.insert(0, ROOT)
 props = [json.loads(l) for l in open(os.path.join(ROOT, "properties.jsonl"))]
 pending_reason = json.load(open(os.path.join(ROOT, "tools", "not_claimed.json")))
+# only properties the coordinator has verified end-to-end are claimed
+claimed_list = [l.strip() for l in open(os.path.join(ROOT, "tools", "claimed.txt")) if l.strip() and not l.startswith("#")]
 checks, na = [], []
 for p in props:
     pid = p["id"]
     mp = os.path.join(ROOT, "checks", pid + ".py")
     mod = importlib.import_module("checks." + pid) if os.path.exists(mp) else None
-    if mod is not None and hasattr(mod, "MANIFEST"):
+    if mod is not None and hasattr(mod, "MANIFEST") and pid in claimed_list:
         m = mod.MANIFEST
         checks.append({
             "property_id": pid,
